@@ -70,7 +70,7 @@ LoopTop ==
   /\ result = "" /\ ~blocked /\ IsShape(cur)
   /\ post' = Count
   /\ IF CtxDone THEN cur' = Raise /\ UNCHANGED <<k, blocked>>
-     ELSE CASE cur.t \in {"loop", "rec", "macro", "evloop"} -> UNCHANGED <<cur, k, blocked>>          \* runs on (abstracted: same state)
+     ELSE CASE cur.t \in {"loop", "rec", "macro", "evloop", "swapspin"} -> UNCHANGED <<cur, k, blocked>>          \* runs on (abstracted: same state)
             [] cur.t \in {"sleep", "deref", "evsleep", "derefc"} -> blocked' = TRUE /\ UNCHANGED <<cur, k>>
             [] cur.t = "value" -> cur' = Ret /\ UNCHANGED <<k, blocked>>
             [] cur.t = "try" -> /\ k' = Append(k, [t |-> "body", h |-> cur.h, f |-> cur.f, done |-> FALSE, pend |-> None])
